@@ -246,3 +246,9 @@ read_tuple!(A, B, C, D, E);
 read_tuple!(A, B, C, D, E, F);
 read_tuple!(A, B, C, D, E, F, G);
 read_tuple!(A, B, C, D, E, F, G, H);
+
+#[cfg(feature = "verif")]
+impl Reader<'_> {
+    /// Size of the internal buffer (verification harness only).
+    pub const VERIF_BUF_SIZE: usize = Reader::BUF_SIZE;
+}
